@@ -246,7 +246,9 @@ impl<VM: VMBinding> crate::policy::gc_work::PolicyTraceObject<VM> for ImmixSpace
             } else {
                 self.trace_object_without_moving(queue, object)
             }
-        } else if KIND == TRACE_KIND_FAST {
+        } else if KIND == TRACE_KIND_FAST || KIND == crate::policy::gc_work::DEFAULT_TRACE {
+            // `DEFAULT_TRACE` is what plans without an Immix-specific trace kind (SemiSpace,
+            // MarkSweep, ...) use when they reach the non-moving Immix space of `CommonPlan`.
             self.trace_object_without_moving(queue, object)
         } else {
             unreachable!()
